@@ -24,7 +24,7 @@ import (
 
 type Entry struct {
 	Name      string `json:"name"`
-	Kind      string `json:"kind"`      // exec | noexec | dir
+	Kind      string `json:"kind"`      // exec* | noexec | dir | garbage | symdir
 	Behaviour string `json:"behaviour"` // healthy | exit | noregister | dielater
 }
 
@@ -130,6 +130,12 @@ func one(scn int, sc Scenario, probe string, w *rec.Writer) error {
 			}
 		case "dir":
 			os.MkdirAll(filepath.Join(pdir, e.Name), 0o755)
+		case "garbage": // executable by mode, not a program: starting it fails
+			os.WriteFile(filepath.Join(pdir, e.Name), []byte("this is not a program\n"), 0o755)
+			os.Chmod(filepath.Join(pdir, e.Name), 0o755)
+		case "symdir": // a symbolic link (mode 0777) to a directory: starting it fails
+			os.MkdirAll(filepath.Join(root, "target-of-"+e.Name), 0o755)
+			os.Symlink(filepath.Join(root, "target-of-"+e.Name), filepath.Join(pdir, e.Name))
 		}
 	}
 	for _, d := range sc.DropIns {
@@ -158,7 +164,14 @@ func one(scn int, sc Scenario, probe string, w *rec.Writer) error {
 		}
 	}
 	t0 := time.Now()
-	serr := ad.Start()
+	serr := func() (err error) {
+		defer func() {
+			if p := recover(); p != nil {
+				err = fmt.Errorf("panic: %v", p)
+			}
+		}()
+		return ad.Start()
+	}()
 	add("started", "err", serr != nil, "errtext", fmt.Sprint(serr), "ms", int(time.Since(t0).Milliseconds()))
 	if serr == nil {
 		// one event for everybody, three times: a plugin that dies later dies after the first, is dropped
